@@ -17,8 +17,8 @@ const (
 )
 
 type vEdge struct {
-	kind   int
-	x, y   int // target type indexes (y only for choices)
+	kind int
+	x, y int // target type indexes (y only for choices)
 }
 
 type vType struct {
